@@ -38,6 +38,7 @@ CONSTANTS
  SubFlips <- {flips}
  Variants = {variants}
  Triples = {triples}
+ Quiet = {quiet}
  Mutant = "{mutant}"
 """
 
@@ -46,9 +47,11 @@ KNOWN_MSG = "flipped() can only flip an interface object"
 DEFECT_CLAUSE = "flipped_interface_dimensioned_member"
 
 
-def cfg(depth, width, members, pdims, sdims, attrs, flips, variants=False, triples=False, mutant="", invariants=None):
+def cfg(depth, width, members, pdims, sdims, attrs, flips, variants=False, triples=False, mutant="", invariants=None,
+        quiet=False):
     t = CFG.format(depth=depth, width=width, members=members, pdims=pdims, sdims=sdims, attrs=attrs, flips=flips,
-                   variants="TRUE" if variants else "FALSE", triples="TRUE" if triples else "FALSE", mutant=mutant)
+                   variants="TRUE" if variants else "FALSE", triples="TRUE" if triples else "FALSE", mutant=mutant,
+                   quiet="TRUE" if quiet else "FALSE")
     for inv in (INVARIANTS if invariants is None else invariants):
         t += "INVARIANT %s\n" % inv
     return t
@@ -238,11 +241,12 @@ class Tester:
                 self.check_connect(t, args, perm, out, sim=sim, what="tuple %s order %s" % ("".join(t), perm))
 
         # -- single-point corruptions (meaningless when the compliant tuple cannot be connected in the first place)
-        if exp.get("vars") or exp.get("cvars") or exp.get("ovars"):
+        if exp.get("vars") or exp.get("cvars") or exp.get("ovars") or exp.get("qvars"):
             if self.defect or self.connect_broken:
                 self.stats["variants_skipped_defect"] = 1
             else:
                 self.check_variants()
+                self.check_quiet()
 
         # -- component metadata
         if self.opts["metadata"]:
@@ -511,6 +515,27 @@ class Tester:
                         "is_compliant of a created object whose leaf %r is replaced by %s %s%d init/value %d"
                         % (path, impl, "s" if s else "u", w, init))
 
+    def check_quiet(self):
+        """tuples in which one port member is an input on every argument (a path nobody drives): the compliant one
+        must connect the other paths and leave that leaf alone; a different width / initial value of that member on
+        one argument must be refused"""
+        base_paths = sorted({l[0] for l in self.flat["S"]})
+        for v in sorted(self.exp.get("qvars", ()), key=repr):
+            t, mp, kind, a, mem, out = v
+            self.stats["variants"] += 1
+            self.stats["quiet"] = self.stats.get("quiet", 0) + 1
+            n = len(t)
+            orders = [tuple(range(n)), tuple(reversed(range(n)))] + ([(1, 2, 0)] if n == 3 else [])
+            desc = ", ".join("arg%d %s %s%d init=%d" % (i, f[0], "s" if f[3] else "u", f[2], f[4]) for i, f in enumerate(mem))
+            what = "tuple %s with member %s an input on every argument (declared: %s)%s" % (
+                "".join(t), ".".join(mp), desc, "" if not a else ", argument %d differs in %s" % (a - 1, kind))
+            for perm in orders:
+                args = [self.make_arg(k, "a%d" % i, edit_tree(self.ms, mp, "attrs", {
+                    "flow": mem[i][0], "dims": mem[i][1], "w": mem[i][2], "s": mem[i][3], "init": mem[i][4]}))
+                    for i, k in enumerate(t)]
+                self.check_connect(t, args, perm, out, sim=True, what=what + " order %r" % (perm,),
+                                   clause="connect_no_output_leaf", paths=base_paths)
+
     def check_metadata(self, k, sig):
         wiring = _lib()
 
@@ -768,13 +793,20 @@ def plans_for(th):
         # nesting x dimensioned sub-signatures x In/Out x explicit flips, with all corruptions
         P.append(("nested-corrupt", cfg(2, 2, 2, "DimsTwo", "DimsAll", "AttrsOne", "FlipsBoth", variants=True),
                   {"coverage": True, "metadata_every": 2, "workers": 4}))
+        # a path that no argument drives (input everywhere), at nested / dimensioned positions, with its corruptions
+        P.append(("undriven", cfg(2, 2, 3, "DimsTwo", "DimsTwo", "AttrsOne", "FlipsNo", quiet=True),
+                  {"metadata_every": 0, "workers": 4}))
         P.append(("nested", cfg(3, 2, 3, "DimsNone", "DimsTwo", "AttrsOne", "FlipsBoth"),
                   {"metadata_every": 16, "workers": 8}))
     else:
-        P.append(("leaves2-corrupt", cfg(1, 2, 2, "DimsAll", "DimsNone", "AttrsFew", "FlipsNo", variants=True, triples=True),
+        P.append(("leaves2-corrupt", cfg(1, 2, 2, "DimsAll", "DimsNone", "AttrsFew", "FlipsNo", variants=True, triples=True,
+                                         quiet=True),
                   {"metadata_every": 1, "workers": 4}))
-        P.append(("nested-corrupt", cfg(3, 2, 3, "DimsNone", "DimsTwo", "AttrsFew", "FlipsBoth", variants=True),
+        P.append(("nested-corrupt", cfg(3, 2, 3, "DimsNone", "DimsTwo", "AttrsFew", "FlipsBoth", variants=True, quiet=True),
                   {"metadata_every": 8, "workers": 8}))
+        # a path that no argument drives (input everywhere), at nested / dimensioned positions, with its corruptions
+        P.append(("undriven", cfg(2, 2, 3, "DimsTwo", "DimsAll", "AttrsOne", "FlipsBoth", quiet=True, triples=True),
+                  {"metadata_every": 0, "workers": 8}))
         P.append(("nested-corrupt-dims", cfg(2, 2, 2, "DimsTwo", "DimsAll", "AttrsFew", "FlipsBoth", variants=True, triples=True),
                   {"coverage": True, "metadata_every": 1, "workers": 4}))
         P.append(("nested", cfg(3, 2, 4, "DimsNone", "DimsTwo", "AttrsOne", "FlipsBoth"),
@@ -819,7 +851,7 @@ def run(ctx):
                 if not vals:
                     raise MachineryError("binding demo: TLC printed no expectation:\n" + r.out[-1500:])
                 demo = tlaval.parse(vals[0])
-                for k in ("vars", "cvars", "ovars"):      # the demonstration uses the compliant tuples only
+                for k in ("vars", "cvars", "ovars", "qvars"):      # the demonstration uses the compliant tuples only
                     demo[k] = frozenset()
             tot, stats, f = replay_dump(ctx, name, r, path, opts)
             fps |= f
@@ -882,14 +914,14 @@ def replay(ctx, rep):
     r = rep["replay"]
     ms = _thaw(r["ms"])
     exp = _thaw(r["exp"])
-    for k in ("nodesS", "nodesF", "vars", "cvars", "ovars"):
+    for k in ("nodesS", "nodesF", "vars", "cvars", "ovars", "qvars"):
         exp[k] = frozenset(exp.get(k, ()))
     exp["conn"] = [{"errs": frozenset(c["errs"]), "edges": frozenset(c["edges"]), "unspec": c["unspec"]} for c in exp["conn"]]
 
     def fix(v):      # outcome records nested in variant tuples
         return tuple({"errs": frozenset(x["errs"]), "edges": frozenset(x["edges"]), "unspec": x["unspec"]}
                      if isinstance(x, dict) and "errs" in x else x for x in v)
-    for k in ("vars", "cvars"):
+    for k in ("vars", "cvars", "qvars"):
         exp[k] = frozenset(fix(v) for v in exp[k])
     t = test_state(ms, exp, r.get("opts") or {"sim_all": True, "metadata": True})
     print("Signature(%s)" % tree_repr(ms))
